@@ -30,10 +30,11 @@ type registry struct {
 	// closure table: opaque func ids that denote closures known to the engine
 	clos map[string]*ClosV
 	// type tags
-	tags map[string]int
+	tags  map[string]int
+	tagTy map[int]types.Type
 }
 
-var reg = &registry{decls: map[string]string{}, clos: map[string]*ClosV{}, tags: map[string]int{}}
+var reg = &registry{decls: map[string]string{}, clos: map[string]*ClosV{}, tags: map[string]int{}, tagTy: map[int]types.Type{}}
 
 func (r *registry) declare(name, decl string) {
 	r.mu.Lock()
@@ -99,7 +100,14 @@ func (r *registry) typeTag(t types.Type) Term {
 	}
 	n := len(r.tags) + 1
 	r.tags[k] = n
+	r.tagTy[n] = t
 	return IntLit(int64(n))
+}
+
+func (r *registry) tagType(n int64) types.Type {
+	r.mu.Lock()
+	defer r.mu.Unlock()
+	return r.tagTy[int(n)]
 }
 
 func (r *registry) tagName(n int64) string {
@@ -801,6 +809,9 @@ func (st *State) assumeWF(v Val, t types.Type) {
 	case SliceV:
 		if _, ok := isIntLit(x.Len); !ok {
 			st.assume(Cmp(">=", x.Len, IntLit(0)))
+			if _, ok := isIntLit(x.Arr); !ok {
+				st.assume(Implies(Eq(x.Arr, IntLit(0)), Eq(x.Len, IntLit(0)))) // a nil slice is empty
+			}
 		}
 	case StructV:
 		u := x.T.Underlying().(*types.Struct)
